@@ -44,7 +44,8 @@ P = {'id': 'C03',
               'nltb_get_by_id',
               'nltb_standin_lawful',
               'mem_from_data_history_refines_spec',
-              'mem_from_data_ids_fresh'],
+              'mem_from_data_ids_fresh',
+              'zero_finish_history_refines_spec'],
  'trusted': ['modelled (M+S): src/blob_store/memory.rs; mixed_len.rs (bitmap rank as count_occ-style spec rank, UintVecMin0 offsets at value level); '
              'zip_offset_builder.rs + zip_offset.rs + sorted_uint_vec.rs (bit-exact file image compared on every run); simple_zip.rs (fragmenting and the string pool); '
              'zero_length.rs; plain.rs (directory as a finite map, decimal file names, u32 parsing, close + reopen); traits.rs as a record of nine functions; '
@@ -53,9 +54,9 @@ P = {'id': 'C03',
              'compressor, entropy stage and LRU map with the round-trip laws; every wrapper stack by composition; '
              'zip_offset_builder.rs BatchZipOffsetBlobStoreBuilder (batch buffer, lengths, flush loop; byte-exact image on every run); '
              'nest_louds_trie_blob_store.rs NestLoudsTrieBlobStoreBuilder + the put_with_key / get_by_key / get path it drives, over an arbitrary lawful trie '
-             '(slice::sort_by by its specification: a stable sort); MemoryBlobStore::from_data as the start of a history',
+             '(slice::sort_by by its specification: a stable sort); MemoryBlobStore::from_data and ZeroLengthBlobStore::finish(n) as the start of a history',
              'spec-only cells (direct oracle against a shadow map, no mechanism model): NestLoudsTrieBlobStore histories (4 presets, keyed API on a live store, build_from_* constructors), '
-             'ZipOffsetBlobStore and its batch builder with zstd (theorems with zstd as a parameter, no evaluated image), ZeroLengthBlobStore::finish, the serde image of MemoryBlobStore',
+             'ZipOffsetBlobStore and its batch builder with zstd (theorems with zstd as a parameter, no evaluated image), the serde image of MemoryBlobStore',
              'zstd, the page cache, the LRU map, the trie, PA-Zip and the entropy coders are opaque (properties C01, C02, C05, C17): parameters of the theorems under their '
              'round-trip laws; in the evaluated cases zstd and the Huffman coder are the finite table of (input, output) pairs observed between two layers of the real stack, '
              'DictZip and the page cache use the stand-ins of their model files (the theorems say the observations do not depend on them)'],
